@@ -214,14 +214,24 @@ def run(eng, rep):
     # the two projectors
     pb = eng.fn("util.pbox")
     r = [n for n in eng.prog.own_nodes(pb) if isinstance(n, ast.Return)]
-    if len(r) == 1 and ekey(r[0].value).replace("numpy", "np") in ("np.minimum(np.maximum(x, l), u)", "np.maximum(np.minimum(x, u), l)", "np.clip(x, l, u)"):
-        rep.ok("C15-2b.pbox-is-a-clamp", eng.where(pb), "pbox returns a pure clamp expression: its output lies exactly in the box")
+    px, pl, pu = (pb.posparams + [None, None, None])[:3]
+
+    def fname(c):
+        return ekey(c.func).split(".")[-1] if isinstance(c, ast.Call) else None
+
+    def two_sided_clamp(v):
+        """min(max(x, l), u) / max(min(x, u), l) with either argument order, or clip(x, l, u): both bounds applied, nothing else"""
+        if fname(v) == "clip" and len(v.args) == 3 and [ekey(a) for a in v.args] == [px, pl, pu]:
+            return True
+        for outer, inner, ob, ib in (("minimum", "maximum", pu, pl), ("maximum", "minimum", pl, pu)):
+            if fname(v) == outer and len(v.args) == 2 and not v.keywords:
+                for a, b_ in ((v.args[0], v.args[1]), (v.args[1], v.args[0])):
+                    if ekey(b_) == ob and fname(a) == inner and len(a.args) == 2 and not a.keywords and sorted(ekey(z) for z in a.args) == sorted([px, ib]):
+                        return True
+        return False
+
+    if len(r) == 1 and two_sided_clamp(r[0].value):
+        rep.ok("C15-2b.pbox-is-a-clamp", eng.where(pb), "pbox returns a pure two-sided clamp of its first argument against its second and third (`%s`): its output lies exactly in the box" % short(r[0].value))
     else:
         txt = ekey(r[0].value) if r else "?"
-        # structural form: min(max(x, l), u) up to argument names
-        v = r[0].value if r else None
-        okc = isinstance(v, ast.Call) and ekey(v.func).endswith(("minimum", "maximum", "clip"))
-        if okc:
-            rep.ok("C15-2b.pbox-is-a-clamp", eng.where(pb), "pbox returns a clamp expression `%s`" % short(v))
-        else:
-            rep.bad("C15-2b.pbox-is-a-clamp", eng.where(pb), "util.pbox|not-a-clamp", "pbox returns `%s`: arithmetic after the clamp" % txt[:60])
+        rep.bad("C15-2b.pbox-is-a-clamp", eng.where(pb), "util.pbox|not-a-clamp", "pbox returns `%s`, which is not min(max(x, l), u) / max(min(x, u), l) / clip(x, l, u): a bound is not applied, or something happens after the clamp" % txt[:60])
